@@ -213,10 +213,12 @@ def is_chunked_te(u: U):
     if out.ok:
         u.check("C01.te.never_false", out.value is True, "the request parser never answers 'not chunked': it raises")
         u.check("C01.te.true_only_if_single_final_chunked", ok,
-                "True only if the last transfer coding is chunked (ASCII case-insensitive) and chunked occurs once")
+                "True only if the last transfer coding is chunked (ASCII case-insensitive) and chunked occurs once",
+                witness={"codings": list(te.parts)})
     else:
         u.check("C01.te.reject_is_400", isinstance(out.exc, E.BadHttpMessage), f"refusal is BadHttpMessage, got {out.exc!r}")
-        u.check("C01.te.rejects_only_bad", Not(ok), "a single final chunked coding is not refused")
+        u.check("C01.te.rejects_only_bad", Not(ok), "a single final chunked coding is not refused",
+                witness={"codings": list(te.parts)})
 
 
 class _Hdrs:
